@@ -362,6 +362,8 @@ fn main() {
                     continue;
                 }
                 if let Some(mut rng) = ctx.sweep_case() {
+                    // caller-supplied VecDeque buffers: half of the cases with a rotated (physically wrapped) ring buffer
+                    tvmon::rollreg::BUF_ROT.with(|r| r.set(if rng.chance(0.5) { 0 } else { 1 + rng.below(8) }));
                     let pat = *rng.pick(&NULL_PATTERNS);
                     let c = *rng.pick(&ALL_CLASSES);
                     let x = series(&mut rng, c, pat, len);
@@ -385,6 +387,8 @@ fn main() {
     for len in 0..=kmax {
         for pat in NULL_PATTERNS {
             if let Some(mut rng) = ctx.sweep_case() {
+                // caller-supplied VecDeque buffers: half of the cases with a rotated (physically wrapped) ring buffer
+                tvmon::rollreg::BUF_ROT.with(|r| r.set(if rng.chance(0.5) { 0 } else { 1 + rng.below(8) }));
                 let c = *rng.pick(&ALL_CLASSES);
                 let x = series(&mut rng, c, pat, len);
                 kernel_case(&mut ctx, &mut rng, &x, native);
@@ -405,6 +409,8 @@ fn main() {
     let nr = if san { ctx.cbudget(2, 8) } else { ctx.cbudget(300, 6000) };
     for _ in 0..nr {
         if let Some(mut rng) = ctx.random_case() {
+            // caller-supplied VecDeque buffers: half of the cases with a rotated (physically wrapped) ring buffer
+            tvmon::rollreg::BUF_ROT.with(|r| r.set(if rng.chance(0.5) { 0 } else { 1 + rng.below(8) }));
             let len = rng.range_usize(0, if san { 10 } else { 64 });
             let w = rng.range_usize(0, len + 3);
             let mp = if rng.chance(0.3) { None } else { Some(rng.range_usize(0, w)) };
